@@ -214,11 +214,13 @@ class TimeoutCM:
         self.shifted = []
 
     def pyvc_enter(self, it, is_async):
-        self.aio.timeout_depth += 1
+        # module-level names of the analysed source are resolved once per source cache: the factory that built this object may belong to
+        # another interpreter, so the depth is kept on the interpreter that executes the block
+        it.aio.timeout_depth += 1
         return self
 
     def pyvc_exit(self, it, exc, is_async):
-        self.aio.timeout_depth -= 1
+        it.aio.timeout_depth -= 1
         return False
 
     def pyvc_getattr(self, it, name):
@@ -363,6 +365,13 @@ def install(it) -> Aio:
             if aio.wait_policy is None:
                 raise Unsupported('asyncio.wait without a policy (harness must say which awaitables complete)')
             done, pending = aio.wait_policy(it3, items, k)
+            if not done and k.get('timeout') is None:
+                # nothing completes and wait() has no timeout of its own: it returns only through an enclosing timeout block (whose
+                # expiry reaches the caller as TimeoutError) - otherwise this activation is blocked for good (no terminating path)
+                if it3.aio.timeout_depth > 0:
+                    it3.throw('TimeoutError')
+                from .ctx import PathAbort
+                raise PathAbort()
             return (set(done), set(pending))
         return SimpleAwaitable(aio, 'asyncio.wait', run)
     reg('asyncio.wait', wait)
